@@ -2,7 +2,7 @@
    Glue: decodes a request, runs the model, prints the observables in canonical form. *)
 From Coq Require Import List String Ascii ZArith NArith Bool.
 From QRB Require Import Base.Bytes Model.W Model.Values Model.Compile Model.Sexp Model.Decode.
-From QRB Require Import Meta.Regex Gen.Regex Model.WArgs Model.Wfe Pg.Lexer.
+From QRB Require Import Meta.Regex Gen.Regex Model.WArgs Model.Wfe Pg.Lexer Model.JsonMap.
 Import ListNotations.
 Local Open Scope string_scope.
 
@@ -62,6 +62,47 @@ Definition d_named (x : sexp) : option (list (string * nat)) :=
                                      | Some k', Some v' => Some (k', v') | _, _ => None end
                    | _ => None end) x.
 
+(* C16 histories: (P k v) (PI c k v) (U k) (B bop...) (AI c sop...) *)
+Definition d_ident (x : sexp) : option (Values.exp nat) :=
+  match d_str x with Some v => Some (EIdent ENil v) | None => None end.
+
+Definition d_bop (x : sexp) : option (bop nat) :=
+  match x with
+  | SList [SAtom "P"; k; v] => match d_str k, d_ident v with Some k', Some v' => Some (BProp k' v') | _, _ => None end
+  | SList [SAtom "PI"; c; k; v] =>
+      match d_bool c, d_str k, d_ident v with Some c', Some k', Some v' => Some (BPropIf c' k' v') | _, _, _ => None end
+  | _ => None
+  end.
+
+Definition d_all {A} (f : sexp -> option A) (l : list sexp) : option (list A) :=
+  fold_right (fun y acc => match f y, acc with Some a, Some r => Some (a :: r) | _, _ => None end) (Some []) l.
+
+Definition d_sop (x : sexp) : option (sop nat) :=
+  match x with
+  | SList [SAtom "P"; k; v] => match d_str k, d_ident v with Some k', Some v' => Some (SoProp k' v') | _, _ => None end
+  | SList [SAtom "PI"; c; k; v] =>
+      match d_bool c, d_str k, d_ident v with Some c', Some k', Some v' => Some (SoPropIf c' k' v') | _, _, _ => None end
+  | SList [SAtom "U"; k] => option_map (@SoUnset nat) (d_str k)
+  | SList (SAtom "B" :: l) => option_map (@SoBatch nat) (d_all d_bop l)
+  | _ => None
+  end.
+
+Definition d_jop (x : sexp) : option (jop nat) :=
+  match x with
+  | SList (SAtom "AI" :: c :: l) =>
+      match d_bool c, d_all d_sop l with Some c', Some l' => Some (JApplyIf c' l') | _, _ => None end
+  | _ => option_map (@JS nat) (d_sop x)
+  end.
+
+Definition empty_parts : parts (Values.exp nat) :=
+  mkParts false [] None "" [] [] [] false [] [] [] ENil ENil (mkLock "" [] "").
+
+Definition sql_of (e : Values.exp nat) : string :=
+  match to_sql valid_ident valid_type (Build_opts true false) [] (compile_top e) with
+  | ROk sql _ _ => hex (bytes_of sql)
+  | _ => "-"
+  end.
+
 Definition render (o : opts) (supplied : list (string * nat)) (e : exp nat) : result nat :=
   to_sql valid_ident valid_type o supplied (compile_top e).
 
@@ -103,6 +144,17 @@ Definition handle (x : sexp) : string :=
                                                        | _ => "-" end) il)
           end
       | _, _, _, _ => "DECODEFAIL"
+      end
+  | SList (SAtom "json16" :: fl :: ops) =>
+      match d_bool fl, d_all d_jop ops with
+      | Some b, Some l =>
+          let j := j_run (mkJ b []) l in
+          let sel := ESelect [] [] (mkParts false [] (select_apply_json (Some (EJson b [])) l) "" [] [] [] false [] [] []
+                                      ENil ENil (mkLock "" [] "")) in
+          "J16 s" ++ sql_of (to_exp j) ++ " s" ++ sql_of sel ++ " " ++ (if j_isb j then "T" else "F") ++ ":"
+            ++ join_with ";" (map (fun kv => hex (fst kv) ++ "=" ++
+                                    match snd kv with EIdent _ v => hex v | _ => "?" end) (j_props j))
+      | _, _ => "DECODEFAIL"
       end
   | SList [SAtom "lex"; scs; s] =>
       match d_bool scs, d_str s with
